@@ -1270,4 +1270,151 @@ theorem builder_cover (L : Layout) (tg : List Loc) (ops : List BOp) (f : Loc) (h
   rw [List.getElem?_append_left (by simpa using hj)]
   simp [hj, hje]
 
+/-! ## quiet states: theorems from any state between operations (steady mocks in place) -/
+
+/-- a state between operations: no lock held, no thread inside a section, all pages executable, history well-locked -/
+structure Quiet (s : St) : Prop where
+  lp : s.lockP = none
+  lm : s.lockM = none
+  cur : ∀ t, (s.th t).cur = none
+  w : ∀ t, (s.th t).w = none
+  x : XInv s
+  acc : AccOk s.acc
+
+theorem quiet_init (text) : Quiet (init text) := by
+  constructor <;> simp [init, XInv, AccOk]
+
+theorem LInv_of_quiet (prog : Tid → List Sec) {s : St} (q : Quiet s) : LInv prog s := by
+  refine ⟨?_, ?_, ?_, ?_, ?_, q.acc⟩
+  · intro t h; simp [q.cur t] at h
+  · intro t h; simp [q.lp] at h
+  · intro t h; simp [q.w t] at h
+  · intro t h; simp [q.lm] at h
+  · intro t h; simp [q.w t] at h
+
+theorem Agree_of_quiet (L prog t) {s : St} (q : Quiet s) : Agree L prog t s s :=
+  ⟨rfl, fun _ _ => ⟨rfl, rfl⟩, q.x, q.x, LInv_of_quiet prog q, LInv_of_quiet prog q, Or.inl q.lp, Or.inl q.lm⟩
+
+/-- when every thread is between sections the state is quiet again -/
+theorem quiet_of_idle {prog : Tid → List Sec} {s : St} (I : LInv prog s) (x : XInv s) (h : ∀ t, (s.th t).cur = none) : Quiet s := by
+  have hw : ∀ t, (s.th t).w = none := fun t => by
+    cases hw : (s.th t).w with
+    | none => rfl
+    | some j => have := (I.mm t (by simp [hw])).2; simp [h t] at this
+  refine ⟨?_, ?_, h, hw, x, I.accOk⟩
+  · cases hl : s.lockP with
+    | none => rfl
+    | some u => have := I.mpc u hl; simp [h u] at this
+  · cases hl : s.lockM with
+    | none => rfl
+    | some u => have := I.mmc u hl; simp [hw u] at this
+
+/-- the sequential fact about a location that a reset relies on -/
+def JAt (Target : Loc → Prop) (s : St) : Prop :=
+  ∀ f, Target f → (s.patches f = none → s.text f = .pristine) ∧
+    (∀ g, s.patches f = some g → g.originBytes = .pristine ∧ (g.applied = false → s.text f = .pristine))
+
+variable {L : Layout} {prog : Tid → List Sec} {t : Tid} {Target : Loc → Prop} {T : Nat}
+
+theorem SInv_of_quiet {s : St} (q : Quiet s) (j : JAt Target s) (hip : (s.th t).ip ≤ T) : SInv L prog t Target T s := by
+  refine ⟨j, ?_, ?_, ?_, ?_, ?_, ?_⟩
+  · intro sec k _ h; simp [q.cur t] at h
+  · intro sec k f jj _ h; simp [q.cur t] at h
+  · intro sec k f jj _ h; simp [q.cur t] at h
+  · intro sec k f _ h; simp [q.cur t] at h
+  · intro f g _ h; simp [q.cur t] at h
+  · intro i f h1 h2; omega
+
+theorem JAt_solo (hplh : ∀ f g, Target f → L.plh g ≠ f)
+    (htail : ∀ i sec, T ≤ i → (prog t)[i]? = some sec → (∃ f, sec = .unpatch f) ∨ (∃ f a, sec = .call f a))
+    {s0 : St} (q : Quiet s0) (j : JAt Target s0) (hip : (s0.th t).ip ≤ T) (n : Nat) : JAt Target (solo L prog t n s0) :=
+  (SInv_solo hplh htail n s0 (LInv_of_quiet prog q) (SInv_of_quiet q j hip)).J
+
+/-- `seq_restored` from any quiet state in which the sequential fact holds -/
+theorem seq_restored_from (hplh : ∀ f g, Target f → L.plh g ≠ f)
+    (htail : ∀ i sec, T ≤ i → (prog t)[i]? = some sec → (∃ f, sec = .unpatch f) ∨ (∃ f a, sec = .call f a))
+    (hcover : ∀ f, Target f → Writes L prog t f → ∃ i, T ≤ i ∧ (prog t)[i]? = some (.unpatch f))
+    {s0 : St} (q : Quiet s0) (j : JAt Target s0) (hip : (s0.th t).ip ≤ T)
+    (n : Nat) (hd : done prog (solo L prog t n s0) t) (f : Loc) (hT : Target f) (hw : Writes L prog t f) :
+    (solo L prog t n s0).text f = .pristine := by
+  have I := SInv_solo (T := T) hplh htail n s0 (LInv_of_quiet prog q) (SInv_of_quiet (L := L) q j hip)
+  obtain ⟨i, hi, he⟩ := hcover f hT hw
+  have hlt : i < (prog t).length := by
+    rcases Nat.lt_or_ge i (prog t).length with h | h
+    · exact h
+    · rw [List.getElem?_eq_none h] at he; cases he
+  exact I.F i f hi (Nat.lt_of_lt_of_le hlt hd.1) he hT
+
+/-- nobody writes `f` ⇒ its text and patch-table entry never change -/
+theorem nowriter_frame_run (L prog) (σ : List Tid) (s : St) (f : Loc) (hf : NoWriter L prog f) :
+    (run L prog σ s).text f = s.text f ∧ (run L prog σ s).patches f = s.patches f := by
+  induction σ generalizing s with
+  | nil => exact ⟨rfl, rfl⟩
+  | cons u σ ih =>
+    have h1 := frame_tr (step_tr L prog u s) f (hf u)
+    have h2 := ih (step L prog u s)
+    simp only [run]; rw [h2.1, h2.2]; exact h1
+
+theorem XInv_run (L prog) (σ : List Tid) (s : St) (h : XInv s) : XInv (run L prog σ s) := by
+  induction σ generalizing s with
+  | nil => exact h
+  | cons u σ ih => exact ih _ (XInv_tr h (step_tr L prog u s))
+
+/-! ## results of a thread's own calls under solo simulation -/
+
+def callsOf (t : Tid) (s : St) : List (Tid × Nat × Option Nat) := s.calls.filter (fun c => c.1 = t)
+
+theorem tr_calls {L prog u s s1} (tr : Tr L prog u s s1) :
+    s1.calls = s.calls ∨ ∃ f a, (prog u)[(s.th u).ip]? = some (.call f a) ∧ (s.th u).cur = none ∧
+      s1.calls = (u, (s.th u).ip, callAt L s f a) :: s.calls := by
+  cases tr with
+  | call f a h1 h2 => exact Or.inr ⟨f, a, h1, h2, rfl⟩
+  | wph sec k wk j ws h1 h2 h3 h4 h5 => left; simp [execW_calls]
+  | tab sec k mi h1 h2 h3 h4 => left; simp [execT_calls]
+  | _ => exact Or.inl rfl
+
+theorem callsOf_other {L prog u t s} (hu : u ≠ t) : callsOf t (step L prog u s) = callsOf t s := by
+  rcases tr_calls (step_tr L prog u s) with h | ⟨f, a, _, _, h⟩
+  · simp [callsOf, h]
+  · simp [callsOf, h, hu]
+
+theorem callsOf_self {L prog t s s'} (A : Agree L prog t s s') (hc : callsOf t s = callsOf t s')
+    (hstep : Agree L prog t (step L prog t s) (step L prog t s')) :
+    callsOf t (step L prog t s) = callsOf t (step L prog t s') := by
+  rcases tr_calls (step_tr L prog t s) with h | ⟨f, a, h1, h2, h⟩
+  · rcases tr_calls (step_tr L prog t s') with h' | ⟨f', a', h1', h2', h'⟩
+    · simp [callsOf, h, h']; exact hc
+    · -- s' performs a call, so s does too (same control state, calls never block)
+      exfalso
+      rw [← A.th] at h1' h2'
+      have : step L prog t s = setTh { s with calls := (t, (s.th t).ip, callAt L s f' a') :: s.calls } t { s.th t with ip := (s.th t).ip + 1 } := by
+        unfold step; simp only [h1', h2']
+      rw [this] at h
+      simp at h
+  · have h1' := h1; have h2' := h2
+    rw [A.th] at h1' h2'
+    have e : step L prog t s' = setTh { s' with calls := (t, (s'.th t).ip, callAt L s' f a) :: s'.calls } t { s'.th t with ip := (s'.th t).ip + 1 } := by
+      unfold step; simp only [h1', h2']
+    have hcong : callAt L s f a = callAt L s' f a :=
+      callAt_congr L s s' f a A.x A.x' (A.loc f ⟨_, List.mem_of_getElem? h1, by simp [mentionsOf]⟩).1
+        (A.loc (L.plh f) ⟨_, List.mem_of_getElem? h1, by simp [mentionsOf]⟩).1
+    simp only [callsOf, h, e, setTh_calls, List.filter_cons, if_true, decide_true]
+    rw [hcong, A.th]
+    congr 1
+
+/-- solo simulation including the results of the thread's own calls -/
+theorem solo_sim_calls (L prog) (hd : Disjoint L prog) (t : Tid) (σ : List Tid) (s s' : St) (A : Agree L prog t s s')
+    (hc : callsOf t s = callsOf t s') :
+    ∃ n, Agree L prog t (run L prog σ s) (solo L prog t n s') ∧ callsOf t (run L prog σ s) = callsOf t (solo L prog t n s') := by
+  induction σ generalizing s s' with
+  | nil => exact ⟨0, A, hc⟩
+  | cons u σ ih =>
+    by_cases hu : u = t
+    · subst hu
+      rcases agree_self A with h | h
+      · simp only [run, h]; exact ih s s' A hc
+      · obtain ⟨n, hn⟩ := ih _ _ h (callsOf_self A hc h)
+        exact ⟨n + 1, hn⟩
+    · exact ih _ s' (agree_other hd hu A) (by rw [callsOf_other hu]; exact hc)
+
 end Conc
